@@ -223,6 +223,24 @@ Proof.
   rewrite Forall_forall in Hall. specialize (Hall b Hb). lra.
 Qed.
 
+Lemma In_firstn {A} n (l : list A) x : In x (firstn n l) -> In x l.
+Proof.
+  revert l. induction n as [|n IH]; intros l H; [destruct H|].
+  destruct l as [|a r]; [destruct H|]. simpl in H. destruct H as [->|H]; [left; reflexivity|right; apply IH, H].
+Qed.
+
+Lemma nth_firstn_lt {A} n (l : list A) i d : (i < n)%nat -> nth i (firstn n l) d = nth i l d.
+Proof.
+  revert l i. induction n as [|n IH]; intros l i H; [lia|].
+  destruct l as [|a r]; [destruct i; reflexivity|]. destruct i as [|i]; [reflexivity|]. simpl. apply IH. lia.
+Qed.
+
+Lemma nth_skipn_add {A} n (l : list A) i d : nth i (skipn n l) d = nth (n + i) l d.
+Proof.
+  revert l. induction n as [|n IH]; intros l; [reflexivity|].
+  destruct l as [|a r]; [destruct i; reflexivity|]. simpl. apply IH.
+Qed.
+
 Lemma sorted_skipn {A} (R : A -> A -> Prop) n l : StronglySorted R l -> StronglySorted R (skipn n l).
 Proof.
   revert l. induction n as [|n IH]; intros l H; [exact H|].
@@ -234,7 +252,7 @@ Proof.
   revert l. induction n as [|n IH]; intros l H; [constructor|].
   destruct l as [|a r]; [constructor|]. simpl. inversion H as [|? ? Hs Hall]; subst.
   constructor; [apply IH, Hs|]. rewrite Forall_forall in *. intros x Hx.
-  apply Hall. apply (firstn_subset n r). exact Hx.
+  apply Hall. apply (In_firstn n r). exact Hx.
 Qed.
 
 Lemma sorted_nth_lt xs i j : StronglySorted Qlt xs -> (i < j < length xs)%nat -> nth i xs 0 < nth j xs 0.
@@ -260,8 +278,8 @@ Lemma argmin_from_spec t all : forall r pre best bestv,
   let j := argmin_from r t (length pre) best bestv in
   (j < length all)%nat /\ forall y, In y all -> Qabs (nth j all 0 - t) <= Qabs (y - t).
 Proof.
-  induction r as [|x r IH]; intros pre best bestv Hall Hb Hv Hpre; simpl.
-  - rewrite app_nil_r in Hall. subst all. split; [exact Hb|]. intros y Hy. rewrite <- Hv. apply Hpre, Hy.
+  induction r as [|x r IH]; intros pre best bestv Hall Hb Hv Hpre; cbv zeta; cbn [argmin_from].
+  - rewrite app_nil_r in Hall. subst pre. split; [exact Hb|]. intros y Hy. rewrite <- Hv. apply Hpre, Hy.
   - assert (Hall' : all = (pre ++ [x]) ++ r) by (rewrite <- app_assoc; exact Hall).
     assert (Hlen : length (pre ++ [x]) = S (length pre)) by (rewrite app_length; simpl; lia).
     assert (Hnth : nth (length pre) all 0 = x).
@@ -297,7 +315,10 @@ Proof.
   rewrite Z in Hmin.
   pose proof (Qabs_nonneg (nth (argmin_abs xs (nth i xs 0)) xs 0 - nth i xs 0)) as N.
   assert (A0 : Qabs (nth (argmin_abs xs (nth i xs 0)) xs 0 - nth i xs 0) == 0) by lra.
-  destruct (Qabs_case (nth (argmin_abs xs (nth i xs 0)) xs 0 - nth i xs 0)) ; lra.
+  set (u := nth (argmin_abs xs (nth i xs 0)) xs 0 - nth i xs 0) in *.
+  destruct (Qlt_le_dec u 0) as [L|L].
+  - rewrite Qabs_neg in A0 by lra. unfold u in *. lra.
+  - rewrite Qabs_pos in A0 by lra. unfold u in *. lra.
 Qed.
 
 (* the window contains the sample whose abscissa is x_new *)
@@ -312,7 +333,432 @@ Qed.
 Lemma nth_window {A} (l : list A) st w j d : (st <= j < st + w)%nat -> (j < length l)%nat ->
   nth (j - st) (firstn w (skipn st l)) d = nth j l d.
 Proof.
-  intros H Hl. rewrite nth_firstn. destruct (j - st <? w)%nat eqn:E.
-  - rewrite nth_skipn. f_equal. lia.
-  - apply Nat.ltb_ge in E. lia.
+  intros H Hl. rewrite nth_firstn_lt by lia. rewrite nth_skipn_add. f_equal. lia.
+Qed.
+
+(* ------------------------------------------------------------------ the selected window *)
+Definition sorted_pts {V} (o : options) (pts : list (Q * V)) : list (Q * V) :=
+  if assume_sorted o then pts else sort_pts pts.
+
+Lemma sel_some {V} o w (pts : list (Q * V)) t win :
+  lagrange_sel o w pts t = Some win ->
+  let sp := sorted_pts o pts in
+  let xs := map fst sp in
+  (3 <= w)%nat /\ (w <= length xs)%nat /\ strictly_increasing xs = true /\
+  win = firstn w (skipn (start_idx (length xs) w (argmin_abs xs t)) sp).
+Proof.
+  unfold lagrange_sel, sorted_pts. cbv zeta.
+  set (sp := if assume_sorted o then pts else sort_pts pts).
+  destruct (w <? 3)%nat eqn:E1; [discriminate|].
+  destruct (length (map fst sp) <? w)%nat eqn:E2; [discriminate|].
+  destruct (strictly_increasing (map fst sp)) eqn:E3; [|discriminate]. cbn [orb negb].
+  destruct (bounds_error o && (Qlt_b t (hd 0 (map fst sp)) || Qlt_b (last (map fst sp) 0) t)); [discriminate|].
+  intros H. inversion H. apply Nat.ltb_ge in E1. apply Nat.ltb_ge in E2. repeat split; assumption.
+Qed.
+
+Lemma sorted_pts_in {V} o (pts : list (Q * V)) p : In p pts -> In p (sorted_pts o pts).
+Proof.
+  unfold sorted_pts. destruct (assume_sorted o); [auto|]. intros H.
+  apply (Permutation_in _ (Permutation_sym (sort_perm pts))). exact H.
+Qed.
+
+Lemma sorted_pts_in_inv {V} o (pts : list (Q * V)) p : In p (sorted_pts o pts) -> In p pts.
+Proof.
+  unfold sorted_pts. destruct (assume_sorted o); [auto|]. intros H.
+  apply (Permutation_in _ (sort_perm pts)). exact H.
+Qed.
+
+Lemma window_facts {V} o w (pts : list (Q * V)) t win :
+  lagrange_sel o w pts t = Some win ->
+  length win = w /\ distinct (map fst win) /\ (forall p, In p win -> In p pts).
+Proof.
+  intros H. destruct (sel_some o w pts t win H) as [Hw [Hn [Hs Hwin]]].
+  set (sp := sorted_pts o pts) in *. set (xs := map fst sp) in *.
+  set (st := start_idx (length xs) w (argmin_abs xs t)) in *.
+  assert (Hst : (st + w <= length xs)%nat).
+  { unfold st, start_idx. lia. }
+  assert (Hlen : length sp = length xs) by (unfold xs; rewrite map_length; reflexivity).
+  split; [|split].
+  - subst win. rewrite firstn_length, skipn_length. lia.
+  - subst win. rewrite <- firstn_map, <- skipn_map. fold xs.
+    apply sorted_distinct, sorted_firstn, sorted_skipn, strictly_increasing_sorted, Hs.
+  - intros p Hp. subst win. apply In_firstn in Hp.
+    apply (sorted_pts_in_inv o). fold sp.
+    rewrite <- (firstn_skipn st sp). apply in_or_app. right. exact Hp.
+Qed.
+
+Lemma sel_contains_node {V} o w (pts : list (Q * V)) xk v win :
+  In (xk, v) pts -> lagrange_sel o w pts xk = Some win -> In (xk, v) win.
+Proof.
+  intros Hin H. destruct (sel_some o w pts xk win H) as [Hw [Hn [Hs Hwin]]].
+  set (sp := sorted_pts o pts) in *. set (xs := map fst sp) in *.
+  assert (Hlen : length sp = length xs) by (unfold xs; rewrite map_length; reflexivity).
+  apply (sorted_pts_in o) in Hin. fold sp in Hin.
+  destruct (In_nth sp (xk, v) (0, v) Hin) as [i [Hi Hnth]].
+  assert (Hx : nth i xs 0 = xk).
+  { unfold xs. change 0 with (fst (0, v)). rewrite map_nth, Hnth. reflexivity. }
+  pose proof (strictly_increasing_sorted xs Hs) as S.
+  assert (Hj : argmin_abs xs xk = i) by (rewrite <- Hx; apply argmin_at_node; [exact S|lia]).
+  rewrite Hj in Hwin.
+  destruct (start_idx_bounds (length xs) w i Hw Hn ltac:(lia)) as [B1 B2].
+  set (st := start_idx (length xs) w i) in *.
+  rewrite <- Hnth. rewrite <- (nth_window sp st w i (0, v)) by lia.
+  subst win. apply nth_In. rewrite firstn_length, skipn_length. lia.
+Qed.
+
+(* the selection looks at the abscissae only *)
+Lemma insert_column {V W} (f : V -> W) (p : Q * V) l :
+  insert (fst p, f (snd p)) (column f l) = column f (insert p l).
+Proof.
+  induction l as [|h r IH]; [reflexivity|].
+  change (column f (h :: r)) with ((fst h, f (snd h)) :: column f r).
+  cbn [insert fst]. destruct (Qle_bool (fst p) (fst h)); [reflexivity|].
+  rewrite IH. reflexivity.
+Qed.
+
+Lemma sort_column {V W} (f : V -> W) l : sort_pts (column f l) = column f (sort_pts l).
+Proof.
+  induction l as [|h r IH]; [reflexivity|].
+  change (column f (h :: r)) with ((fst h, f (snd h)) :: column f r).
+  cbn [sort_pts]. rewrite IH. apply (insert_column f h).
+Qed.
+
+Lemma sel_column {V W} (f : V -> W) o w (pts : list (Q * V)) t :
+  lagrange_sel o w (column f pts) t = option_map (column f) (lagrange_sel o w pts t).
+Proof.
+  unfold lagrange_sel. cbv zeta.
+  assert (E : (if assume_sorted o then column f pts else sort_pts (column f pts))
+              = column f (if assume_sorted o then pts else sort_pts pts)).
+  { destruct (assume_sorted o); [reflexivity|apply sort_column]. }
+  rewrite E. set (sp := if assume_sorted o then pts else sort_pts pts).
+  rewrite map_fst_column.
+  destruct ((w <? 3)%nat || (length (map fst sp) <? w)%nat || negb (strictly_increasing (map fst sp))); [reflexivity|].
+  destruct (bounds_error o && (Qlt_b t (hd 0 (map fst sp)) || Qlt_b (last (map fst sp) 0) t)); [reflexivity|].
+  simpl. unfold column. rewrite skipn_map, firstn_map. reflexivity.
+Qed.
+
+Lemma rescale_column {V W} (f : V -> W) o (win : list (Q * V)) t :
+  rescale o (column f win) t = (column f (fst (rescale o win t)), snd (rescale o win t)).
+Proof.
+  unfold rescale. destruct (scaling o) as [[m s]|]; [|reflexivity]. simpl.
+  unfold column. rewrite !map_map. reflexivity.
+Qed.
+
+Lemma rescale_1d o (win : list (Q * Q)) t :
+  (forall m s, scaling o = Some (m, s) -> ~ s == 0) ->
+  lag_1d (fst (rescale o win t)) (snd (rescale o win t)) == lag_1d win t.
+Proof.
+  intros Hs. unfold rescale. destruct (scaling o) as [[m s]|] eqn:E; [|reflexivity].
+  simpl. apply lag_1d_affine. apply (Hs m s). reflexivity.
+Qed.
+
+Lemma lagrange1_unfold o w pts t :
+  lagrange1 o w pts t = option_map (fun win => lag_1d (fst (rescale o win t)) (snd (rescale o win t))) (lagrange_sel o w pts t).
+Proof.
+  unfold lagrange1. destruct (lagrange_sel o w pts t) as [win|]; [|reflexivity].
+  simpl. destruct (rescale o win t). reflexivity.
+Qed.
+
+(* ------------------------------------------------------------------ theorems on lagrange1 *)
+Lemma lagrange_nodes_l o w pts xk yk r :
+  (forall m s, scaling o = Some (m, s) -> ~ s == 0) ->
+  In (xk, yk) pts -> lagrange1 o w pts xk = Some r -> r == yk.
+Proof.
+  intros Hs Hin H. rewrite lagrange1_unfold in H.
+  destruct (lagrange_sel o w pts xk) as [win|] eqn:E; [|discriminate].
+  simpl in H. inversion H; subst r. rewrite rescale_1d by exact Hs.
+  destruct (window_facts o w pts xk win E) as [_ [D _]].
+  apply lag_1d_nodes; [|exact D]. apply (sel_contains_node o w pts); assumption.
+Qed.
+
+Lemma lagrange_linear_l o w (l : list (Q * (Q * Q))) a b t :
+  match lagrange1 o w (column fst l) t, lagrange1 o w (column snd l) t,
+        lagrange1 o w (column (fun v => a * fst v + b * snd v) l) t with
+  | Some r1, Some r2, Some r3 => r3 == a * r1 + b * r2
+  | None, None, None => True
+  | _, _, _ => False
+  end.
+Proof.
+  rewrite !lagrange1_unfold, !sel_column.
+  destruct (lagrange_sel o w l t) as [win|]; simpl; [|exact I].
+  rewrite !rescale_column. cbn [fst snd]. apply lag_1d_linear.
+Qed.
+
+Lemma lagrange_perm_l {V} o w (pts pts' : list (Q * V)) t :
+  assume_sorted o = false -> Permutation pts pts' -> lagrange_sel o w pts t = lagrange_sel o w pts' t.
+Proof.
+  intros Ho P.
+  assert (C : sort_pts pts = sort_pts pts' \/
+              (strictly_increasing (map fst (sort_pts pts)) = false /\
+               strictly_increasing (map fst (sort_pts pts')) = false)).
+  { destruct (strictly_increasing (map fst (sort_pts pts))) eqn:E1.
+    - left. apply sort_perm_eq; [exact P|].
+      apply (distinct_perm (map fst (sort_pts pts))); [apply Permutation_map, sort_perm|].
+      apply sorted_distinct, strictly_increasing_sorted, E1.
+    - destruct (strictly_increasing (map fst (sort_pts pts'))) eqn:E2; [|right; split; reflexivity].
+      left. symmetry. apply sort_perm_eq; [apply Permutation_sym, P|].
+      apply (distinct_perm (map fst (sort_pts pts'))); [apply Permutation_map, sort_perm|].
+      apply sorted_distinct, strictly_increasing_sorted, E2. }
+  unfold lagrange_sel. rewrite Ho. cbv zeta.
+  destruct C as [E|[E1 E2]].
+  - rewrite E. reflexivity.
+  - rewrite E1, E2. cbn [negb]. rewrite !orb_true_r. reflexivity.
+Qed.
+
+Lemma lagrange1_perm_l o w pts pts' t :
+  assume_sorted o = false -> Permutation pts pts' -> lagrange1 o w pts t = lagrange1 o w pts' t.
+Proof. intros Ho P. unfold lagrange1. rewrite (lagrange_perm_l o w pts pts' t Ho P). reflexivity. Qed.
+
+Lemma lagrange_nd_perm_l o n w pts pts' t :
+  assume_sorted o = false -> Permutation pts pts' -> lagrange o n w pts t = lagrange o n w pts' t.
+Proof. intros Ho P. unfold lagrange. rewrite (lagrange_perm_l o w pts pts' t Ho P). reflexivity. Qed.
+
+(* the rescaling of the code is irrelevant *)
+Lemma scaling_irrelevant_l srt bnd m s w pts t : ~ s == 0 ->
+  match lagrange1 (mkOpt srt bnd (Some (m, s))) w pts t, lagrange1 (mkOpt srt bnd None) w pts t with
+  | Some r, Some r' => r == r'
+  | None, None => True
+  | _, _ => False
+  end.
+Proof.
+  intros Hs. rewrite !lagrange1_unfold.
+  change (lagrange_sel (mkOpt srt bnd (Some (m, s))) w pts t) with (lagrange_sel (mkOpt srt bnd None) w pts t).
+  destruct (lagrange_sel (mkOpt srt bnd None) w pts t) as [win|]; simpl; [|exact I].
+  apply lag_1d_affine. exact Hs.
+Qed.
+
+(* ------------------------------------------------------------------ n-d data = column-wise *)
+Definition vsum (ncols : nat) (xs : list Q) (l : list (Q * list Q)) (t : Q) : list Q :=
+  fold_right (fun p acc => vadd (vscale (basis xs (fst p) t) (snd p)) acc) (repeat 0 ncols) l.
+
+Lemma vadd_length a b : length a = length b -> length (vadd a b) = length a.
+Proof.
+  revert b. induction a as [|x a IH]; intros [|y b] H; simpl in *; try reflexivity; try discriminate.
+  f_equal. apply IH. lia.
+Qed.
+
+Lemma nth_vadd c a b : (c < length a)%nat -> (c < length b)%nat -> nth c (vadd a b) 0 = nth c a 0 + nth c b 0.
+Proof.
+  revert a b. induction c as [|c IH]; intros [|x a] [|y b] Ha Hb; simpl in *; try lia; try reflexivity.
+  apply IH; lia.
+Qed.
+
+Lemma nth_vscale c k a : (c < length a)%nat -> nth c (vscale k a) 0 = k * nth c a 0.
+Proof.
+  intros H. unfold vscale. rewrite (nth_indep _ 0 (k * 0)) by (rewrite map_length; exact H).
+  apply (map_nth (Qmult k)).
+Qed.
+
+Lemma vsum_length ncols xs l t : (forall p, In p l -> length (snd p) = ncols) -> length (vsum ncols xs l t) = ncols.
+Proof.
+  induction l as [|p r IH]; intros H; simpl; [apply repeat_length|].
+  rewrite vadd_length; unfold vscale; rewrite map_length.
+  - apply H. left. reflexivity.
+  - rewrite IH by (intros q Hq; apply H; right; exact Hq). apply H. left. reflexivity.
+Qed.
+
+Lemma vsum_col ncols xs l t c : (forall p, In p l -> length (snd p) = ncols) -> (c < ncols)%nat ->
+  nth c (vsum ncols xs l t) 0 == lsum xs (column (fun r => nth c r 0) l) t.
+Proof.
+  intros H Hc. induction l as [|p r IH]; simpl.
+  - rewrite nth_repeat. reflexivity.
+  - assert (Hp : length (snd p) = ncols) by (apply H; left; reflexivity).
+    assert (Hr : forall q, In q r -> length (snd q) = ncols) by (intros q Hq; apply H; right; exact Hq).
+    rewrite nth_vadd.
+    + rewrite nth_vscale by lia. rewrite (IH Hr). ring.
+    + unfold vscale. rewrite map_length. lia.
+    + fold (vsum ncols xs r t). rewrite (vsum_length ncols xs r t Hr). exact Hc.
+Qed.
+
+Lemma rescale_rows {V} o (win : list (Q * V)) t p :
+  In p (fst (rescale o win t)) -> exists q, In q win /\ snd p = snd q.
+Proof.
+  unfold rescale. destruct (scaling o) as [[m s]|]; simpl.
+  - intros H. apply in_map_iff in H. destruct H as [q [E Hq]]. exists q. split; [exact Hq|]. subst p. reflexivity.
+  - intros H. exists p. split; [exact H|reflexivity].
+Qed.
+
+Lemma lagrange_unfold o n w pts t :
+  lagrange o n w pts t = option_map (fun win => lag_nd n (fst (rescale o win t)) (snd (rescale o win t))) (lagrange_sel o w pts t).
+Proof.
+  unfold lagrange. destruct (lagrange_sel o w pts t) as [win|]; [|reflexivity].
+  simpl. destruct (rescale o win t). reflexivity.
+Qed.
+
+Lemma lagrange_ndim_l o ncols w pts t c :
+  (forall p, In p pts -> length (snd p) = ncols) -> (c < ncols)%nat ->
+  match lagrange o ncols w pts t, lagrange1 o w (column (fun r => nth c r 0) pts) t with
+  | Some v, Some r => length v = ncols /\ nth c v 0 == r
+  | None, None => True
+  | _, _ => False
+  end.
+Proof.
+  intros Hrows Hc. rewrite lagrange_unfold, lagrange1_unfold, sel_column.
+  destruct (lagrange_sel o w pts t) as [win|] eqn:E; simpl; [|exact I].
+  destruct (window_facts o w pts t win E) as [_ [_ Hsub]].
+  rewrite rescale_column. cbn [fst snd].
+  assert (Hr : forall p, In p (fst (rescale o win t)) -> length (snd p) = ncols).
+  { intros p Hp. destruct (rescale_rows o win t p Hp) as [q [Hq Eq]]. rewrite Eq. apply Hrows, Hsub, Hq. }
+  split.
+  - apply (vsum_length ncols (map fst (fst (rescale o win t)))). exact Hr.
+  - rewrite lag_1d_lsum, map_fst_column. apply vsum_col; assumption.
+Qed.
+
+(* ------------------------------------------------------------------ polynomials *)
+Fixpoint padd (p q : list Q) : list Q :=
+  match p, q with
+  | [], _ => q
+  | _, [] => p
+  | a :: p', b :: q' => (a + b) :: padd p' q'
+  end.
+Definition pscale (k : Q) (p : list Q) : list Q := map (Qmult k) p.
+(* (X - a) * p *)
+Definition pmul_lin (a : Q) (p : list Q) : list Q := padd (0 :: p) (pscale (- a) p).
+
+Lemma peval_padd p q t : peval (padd p q) t == peval p t + peval q t.
+Proof.
+  revert q. induction p as [|a p IH]; intros q; simpl; [ring|].
+  destruct q as [|b q]; simpl; [ring|]. rewrite IH. ring.
+Qed.
+
+Lemma peval_pscale k p t : peval (pscale k p) t == k * peval p t.
+Proof. induction p as [|a p IH]; simpl; [ring|]. rewrite IH. ring. Qed.
+
+Lemma peval_pmul_lin a p t : peval (pmul_lin a p) t == (t - a) * peval p t.
+Proof. unfold pmul_lin. rewrite peval_padd, peval_pscale. simpl. ring. Qed.
+
+Lemma padd_length p q : length (padd p q) = Nat.max (length p) (length q).
+Proof.
+  revert q. induction p as [|a p IH]; intros q; simpl; [reflexivity|].
+  destruct q as [|b q]; simpl; [reflexivity|]. rewrite IH. reflexivity.
+Qed.
+
+Lemma pscale_length k p : length (pscale k p) = length p.
+Proof. apply map_length. Qed.
+
+Lemma pmul_lin_length a p : length (pmul_lin a p) = S (length p).
+Proof. unfold pmul_lin. rewrite padd_length, pscale_length. cbn [length]. lia. Qed.
+
+(* synthetic division by (X - r):  p(t) = p(r) + (t - r) * (pdiv p r)(t) *)
+Fixpoint pdiv (p : list Q) (r : Q) : list Q :=
+  match p with
+  | [] => []
+  | _ :: p' => match p' with [] => [] | _ => peval p' r :: pdiv p' r end
+  end.
+
+Lemma pdiv_spec p r t : peval p t == peval p r + (t - r) * peval (pdiv p r) t.
+Proof.
+  induction p as [|c p IH]; [simpl; ring|].
+  destruct p as [|d p'].
+  - simpl. ring.
+  - change (pdiv (c :: d :: p') r) with (peval (d :: p') r :: pdiv (d :: p') r).
+    change (peval (c :: d :: p') t) with (c + t * peval (d :: p') t).
+    change (peval (c :: d :: p') r) with (c + r * peval (d :: p') r).
+    change (peval (peval (d :: p') r :: pdiv (d :: p') r) t) with (peval (d :: p') r + t * peval (pdiv (d :: p') r) t).
+    rewrite IH at 1. ring.
+Qed.
+
+Lemma pdiv_length p r : length (pdiv p r) = pred (length p).
+Proof.
+  induction p as [|c p IH]; [reflexivity|]. destruct p as [|d p']; [reflexivity|].
+  change (pdiv (c :: d :: p') r) with (peval (d :: p') r :: pdiv (d :: p') r).
+  change (length (peval (d :: p') r :: pdiv (d :: p') r)) with (S (length (pdiv (d :: p') r))).
+  rewrite IH. reflexivity.
+Qed.
+
+(* a polynomial with at most n coefficients and n pairwise different roots vanishes everywhere *)
+Lemma poly_roots_zero : forall roots p, (length p <= length roots)%nat -> distinct roots ->
+  (forall r, In r roots -> peval p r == 0) -> forall t, peval p t == 0.
+Proof.
+  induction roots as [|r rs IH]; intros p Hlen D Hroot t.
+  - destruct p; [reflexivity|simpl in Hlen; lia].
+  - apply distinct_cons_inv in D. destruct D as [Dr Drs]. rewrite Forall_forall in Dr.
+    rewrite (pdiv_spec p r t). rewrite (Hroot r) by (left; reflexivity).
+    assert (Z : forall t', peval (pdiv p r) t' == 0).
+    { apply IH.
+      - rewrite pdiv_length. simpl in Hlen. lia.
+      - exact Drs.
+      - intros r' Hr'. pose proof (pdiv_spec p r r') as E.
+        rewrite (Hroot r') in E by (right; exact Hr'). rewrite (Hroot r) in E by (left; reflexivity).
+        assert (M : (r' - r) * peval (pdiv p r) r' == 0) by lra.
+        apply Qmult_integral in M. destruct M as [M|M]; [|exact M].
+        exfalso. apply (Dr r' Hr'). lra. }
+    rewrite Z. ring.
+Qed.
+
+(* the interpolant as a polynomial *)
+Definition basis_poly (xs : list Q) (xi : Q) : list Q :=
+  fold_right (fun xj acc => if Qeq_bool xj xi then acc else pscale (/ (xi - xj)) (pmul_lin xj acc)) [1] xs.
+
+Lemma peval_basis_poly xs xi t : peval (basis_poly xs xi) t == basis xs xi t.
+Proof.
+  induction xs as [|xj r IH]; simpl; [ring|].
+  destruct (Qeq_bool xj xi) eqn:E; [exact IH|].
+  rewrite peval_pscale, peval_pmul_lin, IH. apply Qeq_bool_neq in E. field. intro H. apply E. lra.
+Qed.
+
+Lemma basis_poly_length_le xs xi : (length (basis_poly xs xi) <= S (length xs))%nat.
+Proof.
+  induction xs as [|xj r IH]; simpl; [lia|].
+  destruct (Qeq_bool xj xi); [lia|]. rewrite pscale_length, pmul_lin_length. lia.
+Qed.
+
+Lemma basis_poly_length xs xi : In xi xs -> (length (basis_poly xs xi) <= length xs)%nat.
+Proof.
+  induction xs as [|xj r IH]; intros Hin; [destruct Hin|]. simpl.
+  destruct (Qeq_bool xj xi) eqn:E.
+  - apply basis_poly_length_le.
+  - destruct Hin as [->|Hin]; [rewrite Qeq_bool_refl in E; discriminate|].
+    rewrite pscale_length, pmul_lin_length. specialize (IH Hin). lia.
+Qed.
+
+Definition lsum_poly (xs : list Q) (l : list (Q * Q)) : list Q :=
+  fold_right (fun p acc => padd (pscale (snd p) (basis_poly xs (fst p))) acc) [] l.
+
+Lemma peval_lsum_poly xs l t : peval (lsum_poly xs l) t == lsum xs l t.
+Proof.
+  induction l as [|p r IH]; simpl; [reflexivity|].
+  rewrite peval_padd, peval_pscale, peval_basis_poly, IH. reflexivity.
+Qed.
+
+Lemma lsum_poly_length xs l : (forall p, In p l -> In (fst p) xs) -> (length (lsum_poly xs l) <= length xs)%nat.
+Proof.
+  induction l as [|p r IH]; intros H; simpl; [lia|].
+  rewrite padd_length, pscale_length.
+  pose proof (basis_poly_length xs (fst p) (H p (or_introl eq_refl))).
+  specialize (IH (fun q Hq => H q (or_intror Hq))). lia.
+Qed.
+
+(* on a window with pairwise different abscissae, data sampled from a polynomial with at most as many
+   coefficients as the window has points are reproduced everywhere *)
+Lemma lag_1d_poly win p t : distinct (map fst win) -> (length p <= length win)%nat ->
+  (forall x y, In (x, y) win -> y == peval p x) -> lag_1d win t == peval p t.
+Proof.
+  intros D Hlen Hy.
+  set (xs := map fst win).
+  set (d := padd (lsum_poly xs win) (pscale (-1) p)).
+  assert (Z : forall t', peval d t' == 0).
+  { apply (poly_roots_zero xs).
+    - unfold d. rewrite padd_length, pscale_length. unfold xs at 2. rewrite map_length.
+      assert (L : (length (lsum_poly xs win) <= length xs)%nat).
+      { apply lsum_poly_length. intros q Hq. unfold xs. apply in_map, Hq. }
+      unfold xs in L at 2. rewrite map_length in L. lia.
+    - exact D.
+    - intros r Hr. unfold xs in Hr. apply in_map_iff in Hr. destruct Hr as [[x y] [E Hin]]. simpl in E. subst x.
+      unfold d. rewrite peval_padd, peval_pscale, peval_lsum_poly.
+      unfold xs. rewrite <- (lag_1d_lsum win r). rewrite (lag_1d_nodes win r y Hin D). rewrite (Hy r y Hin). ring. }
+  specialize (Z t). unfold d in Z. rewrite peval_padd, peval_pscale, peval_lsum_poly in Z.
+  rewrite lag_1d_lsum. fold xs. lra.
+Qed.
+
+Lemma lagrange_reproduces_poly_l o w pts p t r :
+  (forall m s, scaling o = Some (m, s) -> ~ s == 0) ->
+  (length p <= w)%nat -> (forall x y, In (x, y) pts -> y == peval p x) ->
+  lagrange1 o w pts t = Some r -> r == peval p t.
+Proof.
+  intros Hs Hlen Hy H. rewrite lagrange1_unfold in H.
+  destruct (lagrange_sel o w pts t) as [win|] eqn:E; [|discriminate].
+  simpl in H. inversion H; subst r. rewrite rescale_1d by exact Hs.
+  destruct (window_facts o w pts t win E) as [Hl [D Hsub]].
+  apply lag_1d_poly; [exact D|lia|]. intros x y Hin. apply Hy, Hsub, Hin.
 Qed.
